@@ -23,8 +23,9 @@ RULES = {
     'R9': 'the encoder reads a string argument that has a precision the way printf does: wherever the precision flag of the directive is set (also through \'*\') the argument is not handed to anything that measures it without bound (strlen, the strl* wrappers, strcpy)',
     'R10': 'the decoder appends at its own write position: nothing is added to the output with a function that looks for the end of the string (strcat, strlcat and their wrappers) - a "%c" argument of 0 puts a NUL into the output, and text appended "at the end of the string" lands on top of what was written behind it',
     'R11': 'a conversion the encoder does not know ends the argument list: the edge of its directive switch that no case takes leads out of the function, not back into the scanning loop - how much an unknown conversion takes from the list is unknown, and every argument behind it would be taken for something it is not (a number for the pointer of a %s)',
+    'R12': 'the decoder steps over what the encoder stored: behind a string argument the data position advances by the length of the stored string (a strlen of the stored bytes, plus its terminator) - not by what printing it produced, which a field width makes longer and a precision shorter; every later argument would be read from the wrong place',
 }
-FLOORS = {'R1': 12, 'R2': 20, 'R3': 20, 'R4': 2, 'R5': 12, 'R6': 1, 'R7': 1, 'R8': 1, 'R9': 2, 'R10': 1, 'R11': 1}
+FLOORS = {'R1': 12, 'R2': 20, 'R3': 20, 'R4': 2, 'R5': 12, 'R6': 1, 'R7': 1, 'R8': 1, 'R9': 2, 'R10': 1, 'R11': 1, 'R12': 1}
 
 
 def strl_summary(an, ev, st):
@@ -243,6 +244,7 @@ def run(ctx):
     r9(ctx, e)
     r10(ctx, d)
     r11(ctx, e)
+    r12(ctx, d)
 
 
 def _switch_block(f):
@@ -747,3 +749,39 @@ def r11(ctx, e):
               'when no case matches the encoder returns',
               'a conversion the encoder does not know is skipped without taking its argument and the scan goes on: every later directive gets the argument of its '
               'predecessor - "%Lf ... %s" makes strlen run on part of the long double (SIGSEGV while logging with the blackbox enabled)')
+
+
+def r12(ctx, d):
+    sw = _switch_block(d)
+    tg = _case_targets(d, sw)
+    if 's' not in tg:
+        raise AnalysisBroken('%s: no s case' % d.name)
+    # the data position: the variable the fixed-width cases advance by a sizeof
+    adv = {}
+    for st in d.events('STORE'):
+        if st.d['op'] == '+=' and unwrap(st.lhs).get('k') == 'var' and unwrap(st.rhs).get('k') == 'sizeof':
+            adv[estr(st.lhs)] = adv.get(estr(st.lhs), 0) + 1
+    if not adv:
+        raise AnalysisBroken('%s: data position not found' % d.name)
+    cur = max(adv, key=adv.get)
+    loops = d.natural_loops()
+    barrier = {h for h in loops if sw.id in loops[h]} | {sw.id}
+    # blocks of the s case: from its target to the way back into the scanning loop
+    seen, work = set(), [tg['s']]
+    while work:
+        x = work.pop()
+        if x in seen or x in barrier:
+            continue
+        seen.add(x)
+        work += [t for (t, _l) in d.blocks[x].succs]
+    others = {t for c_, t in tg.items() if c_ != 's'}
+    steps = [st for b_ in sorted(seen) for st in d.blocks[b_].events if st.kind == 'STORE' and estr(st.lhs) == cur and b_ not in others]
+    if not steps:
+        raise AnalysisBroken('%s: the s case does not move the data position' % d.name)
+    for st in steps:
+        calls = [n for n in walk(st.rhs) if n.get('k') == 'call']
+        ok = any(callee_of(n) in ('strlen', 'strnlen') and any(m.get('k') == 'var' and m.get('n') == cur for a in n.get('args', []) for m in walk(a)) for n in calls)
+        ctx.check('R12', 'string-argument-stepped-over-by-its-stored-length', ok, st,
+                  'behind a string argument the data position advances by strlen(stored bytes) + 1',
+                  'behind a string argument the data position advances by %s, not by the length of the stored string: with a field width (or a precision) the printed length differs from the stored one and every later argument is read from the wrong place'
+                  % estr(st.rhs))
